@@ -447,6 +447,8 @@ def load(*, fake_skia=True, lex_placeholders=True, modules=MODULE_ORDER, extra_a
         mods.stubs.append(
             "svg_path_iter._FLOAT_RE |= placeholder token (number lexing is C10's subject)"
         )
+    if "svg" in mods._mods:
+        _stub_attr_ntos(mods)
     if mods.ifconv_sites:
         mods.stubs.append(
             f"if-conversion of {mods.ifconv_sites} `if almost_equal(x,k): x = c` statements into ite terms (no fork, same semantics)"
@@ -531,6 +533,40 @@ def _merge_namedtuple_compare(mods):
     mods.stubs.append(
         "==/!= of Point/Vector/Rect/Affine2D and Point/Vector.almost_equals evaluated as one conjunction "
         "(state merging; equivalence with the source function re-proved by C09 lemma_merge)"
+    )
+
+
+def _stub_attr_ntos(mods):
+    """svg.to_element compares the *printed* value of a numeric attribute with the
+    inherited value as strings.  A symbolic number prints as a placeholder, so the
+    comparison would silently be False even when the two numbers are equal.  The
+    stub forks on numeric equality with the inherited value and then prints the
+    inherited spelling (DESIGN 1.1, `ntos` literal watch)."""
+    svg = mods._mods["svg"]
+    orig = svg.ntos
+    from .values import SxFloat
+
+    def ntos_attr(n):
+        if isinstance(n, SymReal):
+            fr = sys._getframe(1)
+            if fr.f_code.co_name == "to_element":
+                loc = fr.f_locals
+                attr = loc.get("attr_name")
+                inh = loc.get("inherited_attrib") or {}
+                if attr in inh:
+                    try:
+                        lit = SxFloat(inh[attr])
+                    except (ValueError, TypeError):
+                        lit = None
+                    if lit is not None and C.cur().branch(term_of_(n) == term_of_(lit)):
+                        return inh[attr]
+        return orig(n)
+
+    from .values import term_of as term_of_
+
+    svg.ntos = ntos_attr
+    mods.stubs.append(
+        "svg.ntos inside to_element: forks on numeric equality with the inherited attribute value (string comparison of printed numbers)"
     )
 
 
